@@ -710,10 +710,21 @@ func c51Build() *c51Universe {
 		}
 	}
 	all = append(all,
-		c51Array(u8, 3), c51Array(str, 3), c51Array(c51Array(u8, 3), 2), c51Array(c51Slice(u8), 3),
+		c51Array(u8, 3), c51Array(str, 3), c51Array(c51Slice(u8), 3),
 		c51Tuple(u8, str, c51Array(i8, 2), bts), c51Tuple(str, c51Tuple(u8, bts), boolT), c51Tuple(c51Slice(str), u8, c51Array(b1, 2)),
 		c51Slice(c51Slice(c51Slice(u8))), c51Slice(c51Tuple(u8, c51Slice(str))))
+	// multi-word static aggregates of depth 2 in positions where their size matters: followed by another member /
+	// argument, and as elements of slices and arrays (depth 3)
+	wide := []*c51T{c51Array(c51Tuple(i8, b32), 2), c51Array(c51Array(u8, 2), 2), c51Tuple(c51Array(u8, 2), b1),
+		c51Tuple(c51Tuple(u8, b1), i8), c51Array(u8, 3)}
 	u := &c51Universe{nest: nest}
+	for _, x := range wide {
+		all = append(all, c51Tuple(x, str), c51Tuple(x, u8, bts), c51Tuple(str, x, i8))
+		if x.String() != "uint8[3]" {
+			all = append(all, c51Slice(x), c51Array(x, 2))
+		}
+		u.pairs = append(u.pairs, []*c51T{x, str}, []*c51T{x, i8}, []*c51T{bts, x})
+	}
 	seen := map[string]bool{}
 	for _, t := range all {
 		if seen[t.String()] {
@@ -925,7 +936,7 @@ func TestVerif_C51(t *testing.T) {
 		alphabet := c51Alphabet(mc.Pick(r, 7, 9))
 		variants := mc.Pick(r, 2, 3)
 		r.Rule("types: 11 base types (uint8/64/256, int8/256, bool, address, bytes1/32, bytes, string) closed under T[], T[2], (T,U) to depth 1 completely and to depth 2 for T[] / T[2] over all depth-1 types and (T,U) over 12 representatives, " +
-			"plus every integer width 8..256, bytes2/3/20/31, 3-element arrays, 3/4-field tuples, T[][][]; argument lists of one type (all) or two types (12x12 representatives). " +
+			"plus every integer width 8..256, bytes2/3/20/31, 3-element arrays, 3/4-field tuples, T[][][], 5 multi-word static aggregates of depth 2 as non-last members / arguments and as slice / array elements; argument lists of one type (all) or two types (12x12 representatives + 15). " +
 			"encode: per argument list every combination of boundary values (full sets at the top two levels, 3 per leaf / 4 per aggregate below; slices of length 0,1,2): Pack == spec encoder, Unpack(Pack(v)) == v, +junk, truncations. " +
 			"decode: per argument list (tuples of two base types only over 6 representative base types) every sequence of <= maxWords words over the word alphabet, each also minus its last byte (thorough: and plus one byte): " +
 			"strict-reference-accepts => Unpack accepts => lenient-reference-accepts with equal values, re-encoding canonical and stable. " +
@@ -948,18 +959,33 @@ func TestVerif_C51(t *testing.T) {
 			}
 		}
 		var decodeLists int64
-		var findings sync.Map // class|types -> reported
+		// violations of a recognised class are reported once per class (smallest type list / input as witness), so that
+		// a known finding occupies one slot of the bounded violation list and cannot mask other violations
+		var fmu sync.Mutex
+		witness := map[string]c51Case{}
+		witnessMsg := map[string]string{}
 		report := func(c c51Case, err error) {
 			if f, ok := err.(*c51Finding); ok {
-				key := "C51 " + f.class + " types=" + c.Types
-				if _, dup := findings.LoadOrStore(key, true); !dup || r.Replaying() {
-					r.Violation(key, f.msg+" [first input: "+c.Data+"]", c)
+				if r.Replaying() {
+					r.Violation("C51 "+f.class, f.msg+" [witness: types "+c.Types+" input "+c.Data+"]", c)
+					return
 				}
+				fmu.Lock()
+				if w, have := witness[f.class]; !have || len(c.Types)+len(c.Data) < len(w.Types)+len(w.Data) ||
+					(len(c.Types)+len(c.Data) == len(w.Types)+len(w.Data) && c.Types+c.Data < w.Types+w.Data) {
+					witness[f.class], witnessMsg[f.class] = c, f.msg
+				}
+				fmu.Unlock()
 				return
 			}
 			b, _ := json.Marshal(c)
 			r.Violation(string(b), err.Error(), c)
 		}
+		defer func() {
+			for class, c := range witness {
+				r.Violation("C51 "+class, witnessMsg[class]+" [witness: types "+c.Types+" input "+c.Data+"]", c)
+			}
+		}()
 		r.Parallel(len(lists), func(li int) {
 			ts := lists[li]
 			tl := c51TypeList(ts)
